@@ -162,10 +162,14 @@ def make_object(case):
 
 
 def impl_mask(case, legacy_h=None):
-    cfg = make_config(case["axes"], legacy_h)
-    obj = make_object(case)
-    placed = obj.place_on_grid(grid_slice_tuple=tuple(tuple(b) for b in case["box"]), config=cfg, key=J()["key"])
-    return np.asarray(placed.get_voxel_mask_for_shape())
+    """mask of the placed object; a string when placing / rasterising a valid object raises"""
+    try:
+        cfg = make_config(case["axes"], legacy_h)
+        obj = make_object(case)
+        placed = obj.place_on_grid(grid_slice_tuple=tuple(tuple(b) for b in case["box"]), config=cfg, key=J()["key"])
+        return np.asarray(placed.get_voxel_mask_for_shape())
+    except Exception as ex:  # noqa: BLE001
+        return f"raised {type(ex).__name__}: {str(ex)[:120]}"
 
 
 # ----------------------------------------------------------------------------------- model side
@@ -220,6 +224,8 @@ def crossing_inside(verts, px, py):
 
 def oracle(case, mask):
     """None if `mask` marks exactly the cells whose centre lies strictly inside the analytic shape"""
+    if isinstance(mask, str):
+        return "no mask for a valid object: " + mask
     axes, box = case["axes"], case["box"]
     n = [up - lo for lo, up in box]
     off = [np.asarray(offsets(axes[a], box[a][0], box[a][1])) for a in range(3)]
@@ -440,6 +446,11 @@ def run(ctx):
     reps = ctx.driver.ask_many([model_line(c) for c in cases])
     for i, (case, rep) in enumerate(zip(cases, reps)):
         mask = impl_mask(case)
+        if isinstance(mask, str):
+            ctx.case(nontrivial=("raised", case["shape"]), shape=case["shape"], cls="raised")
+            ctx.mismatch(case["shape"], case, mask)
+            judge(ctx, case, mask)
+            continue
         ns = surface_cells(case)
         ctx.case(sample={"case": {k: v for k, v in case.items() if k != "axes"}, "cells_in_mask": int(mask.sum()),
                          "on_surface": ns} if i in (0, 30, 45) else None,
@@ -471,7 +482,8 @@ def run(ctx):
         m_legacy = impl_mask(case, legacy_h=h)
         m_res = impl_mask(case)
         ctx.case(nontrivial=("legacy", kind, i), shape=kind, cls="legacy", grid="legacy")
-        ctx.expect_equal("legacy-vs-resolved", case, m_legacy.astype(int).tolist(), m_res.astype(int).tolist())
+        ctx.expect_equal("legacy-vs-resolved", case, m_legacy if isinstance(m_legacy, str) else m_legacy.astype(int).tolist(),
+                         m_res if isinstance(m_res, str) else m_res.astype(int).tolist())
         judge(ctx, case, m_legacy)
     # (C) end to end
     for k in range(ctx.scale(3, 18)):
